@@ -213,6 +213,7 @@ def trees(tier):
         out += [with_qk(s, qk) for s in reps]
     if tier != "quick":
         out += S.D3_quick() + S.D3flow()
+    out += S.DX()
     seen, res = set(), []
     for s in out:
         k = S.key(s)
